@@ -71,7 +71,7 @@ func main() {
 		replay(run, run.Args[1:])
 		return
 	}
-	// C11_PARTS=a1,a2,c,l,f,x1,x2,x3,b,b2,b3,b4,b5 restricts a run to some parts (replay / development); the
+	// C11_PARTS=a1,a2,c,l,f,x1,x2,x3,o1,o2,b,b2,b3,b4,b5 restricts a run to some parts (replay / development); the
 	// generators fork per part, so a part produces the same cases alone as in a full run.
 	timed("A1", on("a1"), func() { partA1(run, r.Fork(1)) })
 	timed("A2", on("a2"), func() { partA2(run, r.Fork(2)) })
@@ -82,6 +82,8 @@ func main() {
 	xo = &xOracle{run: run, count: map[string]int{}}
 	timed("X1", on("x1"), func() { partX1(run, r.Fork(9)) })
 	timed("X2", on("x2"), func() { xBuiltWS = partX2(run, r.Fork(10)) })
+	// Part O (parto.go): output-file histories (O2, the binary leg, runs from partB)
+	timed("O1", on("o1"), func() { partO1(run, r.Fork(11)) })
 	partB(run, r.Fork(4))
 }
 
